@@ -86,14 +86,14 @@ theorem isBasePathOf_componentwise (d q : List Name) (gd : gpath d = true) (gq :
 /-! ### one exclude pattern -/
 
 /-- `shouldExcludeMatch` for one exclude pattern, with the matcher denoted on the parsed pattern (`structMatch`). -/
-def exclOneS (root : List Name) (m raw : Name) (segs : List Seg) : Bool :=
+def exclOneS (o : MOpts) (root : List Name) (m raw : Name) (segs : List Seg) : Bool :=
   isBasePathOf m (if nameOf root == ['.'] then raw else nameOf root ++ '/' :: raw) ||
-  (if m.contains '/' && !raw.contains '/' then structMatch [] segs (base m) else structMatch root segs m)
+  (if m.contains '/' && !raw.contains '/' then structMatch o [] segs (base m) else structMatch o root segs m)
 
 /-- The matcher hypotheses of `C21_match_exact` for one parsed pattern in the package at `root`. -/
-def patOK (root : List Name) (segs : List Seg) : Prop :=
-  okSegs (!hasDstar segs) segs = true ∧ noAdjacentDstar segs = true ∧ segs ≠ [] ∧
-  safePath (!hasDstar segs) root = true ∧ (root = [] → leadingDstar segs = false)
+def patOK (o : MOpts) (root : List Name) (segs : List Seg) : Prop :=
+  okSegs (modeOf o segs) segs = true ∧ noAdjacentDstar segs = true ∧ segs ≠ [] ∧
+  safePath (modeOf o segs) root = true ∧ (root = [] → o.leadOpt = true ∨ leadingDstar segs = false)
 
 /-- What one exclude entry says in the specification. -/
 def specExclOne (raw : Name) (segs : List Seg) (e : List Name) : Bool :=
@@ -128,10 +128,10 @@ theorem segMatch_single_long (s : Seg) (c c' : Name) (r : List Name) :
     segMatch [s] (c :: c' :: r) = (match s with | .dstar => true | .items _ => false) := by
   cases s <;> simp [segMatch]
 
-theorem exclOneS_spec (root : List Name) (raw : Name) (segs : List Seg) (e : List Name)
-    (gr : gpath root = true) (ge : gpath e = true) (he : e ≠ []) (hp : patOK root segs)
+theorem exclOneS_spec (o : MOpts) (root : List Name) (raw : Name) (segs : List Seg) (e : List Name)
+    (gr : gpath root = true) (ge : gpath e = true) (he : e ≠ []) (hp : patOK o root segs)
     (hlen : segs.length = (splitOnSlash raw).length) (graw : gpath (splitOnSlash raw) = true) :
-    exclOneS root (nameOf (root ++ e)) raw segs = specExclOne raw segs e := by
+    exclOneS o root (nameOf (root ++ e)) raw segs = specExclOne raw segs e := by
   obtain ⟨ok, na, hs, sp, hl⟩ := hp
   have hne : root ++ e ≠ [] := by simp [he]
   have gall := gpath_append gr ge
@@ -151,11 +151,11 @@ theorem exclOneS_spec (root : List Name) (raw : Name) (segs : List Seg) (e : Lis
   have hbase' : base (nameOf (root ++ e)) = lastOr e := by
     rw [base_nameOf _ (gpath_good gall), lastOr_append root e he]
   -- the file-name-only reading: a single segment against the last component
-  have single : ∀ (s : Seg) (b : Name), segs = [s] → gname b = true → structMatch [] [s] b = segMatch [s] [b] := by
+  have single : ∀ (s : Seg) (b : Name), segs = [s] → gname b = true → structMatch o [] [s] b = segMatch [s] [b] := by
     intro s b hsg gb
     subst hsg
-    have := structMatch_spec [] [s] [b] ok na (by simp [gpath]) (by simp [safePath]) (by simp [gpath, gb]) (by simp)
-      (by simp) (by intro _; simp [leadingDstar])
+    have := structMatch_spec o [] [s] [b] ok na (by simp [gpath]) (by simp [safePath]) (by simp [gpath, gb]) (by simp)
+      (by simp) (by intro _; right; simp [leadingDstar])
     simpa [joinSlash] using this
   have glast : gname (lastOr e) = true := by
     have hm : lastOr e ∈ e := by
@@ -164,7 +164,7 @@ theorem exclOneS_spec (root : List Name) (raw : Name) (segs : List Seg) (e : Lis
       | none => simp [List.getLast?_eq_none_iff] at h; exact absurd h he
       | some x => exact List.mem_of_getLast? h
     simp only [gpath, List.all_eq_true] at ge; exact ge _ hm
-  have whole := structMatch_spec root segs e ok na gr sp ge he hs hl
+  have whole := structMatch_spec o root segs e ok na gr sp ge he hs hl
   rw [← hn] at whole
   unfold exclOneS specExclOne
   rw [hbase, hslash, hraw, hbase']
@@ -244,23 +244,23 @@ theorem ownFo_shape (cfg : Cfg) (hidden top : Bool) : ∀ (cs : Forest) (q : Lis
 end
 
 /-- **The whole of `glob`, on parsed patterns, against the specification (partial).** -/
-theorem glob_struct_exact (F : Facts) (hF : walkFactsOK' F) (cfg : Cfg) (q : Query) (root : List Name) (cs : Forest)
+theorem glob_struct_exact (F : Facts) (hF : walkFactsOK' F) (o : MOpts) (cfg : Cfg) (q : Query) (root : List Name) (cs : Forest)
     (gr : gpath root = true) (gok : Forest.gok cs.sort = true)
     (ben : benF cfg q.hidden root.isEmpty true cs.sort = true)
     (hroot : cfg.buildNames.contains (lastOr root) = false)
-    (hinc : ∀ segs ∈ q.includes, patOK root segs)
-    (hexc : ∀ x ∈ q.excludes, patOK root x.2 ∧ x.2.length = (splitOnSlash x.1).length ∧ gpath (splitOnSlash x.1) = true)
+    (hinc : ∀ segs ∈ q.includes, patOK o root segs)
+    (hexc : ∀ x ∈ q.excludes, patOK o root x.2 ∧ x.2.length = (splitOnSlash x.1).length ∧ gpath (splitOnSlash x.1) = true)
     (m : Name) (hm : m ≠ nameOf root) :
     ((m ∈ (walkDir F cfg root (.dir cs)).files ∨ (q.symlinks = true ∧ m ∈ (walkDir F cfg root (.dir cs)).symlinks)) ∧
-      (q.includes.any fun s => structMatch root s m) = true ∧
+      (q.includes.any fun s => structMatch o root s m) = true ∧
       isInDirectories m (walkDir F cfg root (.dir cs)).subPackages = false ∧
       (q.hidden = true ∨ isHidden F m = false) ∧
-      (q.excludes.any fun x => exclOneS root m x.1 x.2) = false)
+      (q.excludes.any fun x => exclOneS o root m x.1 x.2) = false)
     ↔ ∃ e ∈ specFo cfg q root.isEmpty [] cs.sort, m = nameOf (root ++ e) := by
   -- matchers and excludes on the path of an owned entry
   have onEntry : ∀ e, gpath e = true → e ≠ [] →
-      (q.includes.any fun s => structMatch root s (nameOf (root ++ e))) = (q.includes.any fun s => segMatch s e) ∧
-      (q.excludes.any fun x => exclOneS root (nameOf (root ++ e)) x.1 x.2) = specExcludes q e := by
+      (q.includes.any fun s => structMatch o root s (nameOf (root ++ e))) = (q.includes.any fun s => segMatch s e) ∧
+      (q.excludes.any fun x => exclOneS o root (nameOf (root ++ e)) x.1 x.2) = specExcludes q e := by
     intro e ge he
     have hn : nameOf (root ++ e) = joinSlash (root ++ e) := by
       cases h : root ++ e with
@@ -270,12 +270,12 @@ theorem glob_struct_exact (F : Facts) (hF : walkFactsOK' F) (cfg : Cfg) (q : Que
     · apply any_congr_of
       intro segs hs
       obtain ⟨ok, na, hne, sp, hl⟩ := hinc segs hs
-      rw [hn]; exact structMatch_spec root segs e ok na gr sp ge he hne hl
+      rw [hn]; exact structMatch_spec o root segs e ok na gr sp ge he hne hl
     · rw [specExcludes_eq]
       apply any_congr_of
       intro x hx
       obtain ⟨hp, hlen, graw⟩ := hexc x hx
-      exact exclOneS_spec root x.1 x.2 e gr ge he hp hlen graw
+      exact exclOneS_spec o root x.1 x.2 e gr ge he hp hlen graw
   have wc := fun l => walk_candidates F hF cfg q.hidden root cs gr gok ben hroot m l hm
   rw [show (∃ e ∈ specFo cfg q root.isEmpty [] cs.sort, m = nameOf (root ++ e)) ↔
       ∃ e l, (e, l) ∈ ownFo cfg q.hidden root.isEmpty [] cs.sort ∧ selects q (e, l) = true ∧ m = nameOf (root ++ e) by
